@@ -58,6 +58,16 @@ def crystal_library():
     L['tricl'] = lambda: _c(a([[1., 0.3, 0.2], [0., 1.1, 0.4], [0., 0., 0.9]]), [a([0., 0., 0.])])
     L['rhomb'] = lambda: _c(a([[1., 0.3, 0.3], [0.3, 1., 0.3], [0.3, 0.3, 1.]]), [a([0., 0., 0.])])
     L['oblique'] = lambda: _c(a([[1., 0.4], [0., 0.9]]), [a([0., 0.])])
+    L['tetra-ab'] = lambda: _c(a([[1., 0., 0.], [0., 1., 0.], [0., 0., 1.5]]), [[a([0., 0., 0.])], [a([0.5, 0.5, 0.8])]])
+    L['skew2'] = lambda: _c(a([[1., 2.25], [0., 1.]]), [a([0., 0.])], noreduce=True)
+    L['fccint'] = lambda: _c(0.5 * a([[0., 1., 1.], [1., 0., 1.], [1., 1., 0.]]),
+                             [[a([0., 0., 0.])], [a([0.5, 0.5, 0.5]), a([0.25, 0.25, 0.25]), a([0.75, 0.75, 0.75])]])
+    # obstructing species beside the far half of a jump (further than the cutoff from the start site)
+    L['rect-ab'] = lambda: _c(a([[1., 0.], [0., 1.6]]), [[a([0., 0.])], [a([0.9, 0.5])]], noreduce=True)
+    L['ortho-ab'] = lambda: _c(np.diag([1., 3., 3.]), [[a([0., 0., 0.])], [a([0.5, 0.95 / 3., 0.])]])
+    L['tric-abc'] = lambda: _c(a([[0.84, 0.1, 0.], [0., 1.6, 0.1], [0., 0., 2.5]]),
+                               [[a([0., 0., 0.]), a([0.178571428571, 0.5, -0.02])], [a([-0.2964285714, 0.53375, -0.02135])], [a([0.4, 0.6, 0.5])]],
+                               noreduce=True)
     L['fcc-nosym'] = lambda: _c(0.5 * a([[0., 1., 1.], [1., 0., 1.], [1., 1., 0.]]), [a([0., 0., 0.])], NOSYM=True)
     L['hcp-nosym'] = lambda: _c(a([[0.5, 0.5, 0.], [-np.sqrt(0.75), np.sqrt(0.75), 0.], [0., 0., np.sqrt(8. / 3.)]]),
                                 [a([1. / 3, 2. / 3, 0.25]), a([2. / 3, 1. / 3, 0.75])], NOSYM=True)
